@@ -32,6 +32,7 @@ def dispatch (line : String) : String :=
     | "lhist" :: rest => lhistCmd rest
     | "qp" :: rest => qpCmd rest
     | "vpsc" :: rest => vpscCmd rest
+    | "vpscr" :: rest => vpscrCmd rest
     | "geom" :: rest => geomCmd rest
     | "pic" :: rest => picCmd rest
     | "tfmt" :: rest => tfmtCmd rest
